@@ -18,8 +18,11 @@
          case req := <-queue:                    -> PDeq m  alternative AltQueue
             reading.Store(false)               PDeq m  -> PBusy m   ("MarkBusy")
             cc.ProcessReceivedMessage(req)     PBusy m -> PRun m (handler program)   ("Dispatch m")
+                 (udp handleReq, message-ID lock taken: PBusy m -> PLock m -> PRun m ...; see below)
                  handler: TryToReplaceLoop()   PRun m (HReplace :: ops) -> PRun m ops
                           nested Do            PRun m (HNested r :: ops) -> PWait m r ops -> PRun m ops
+                          waitForAcknowledge   PRun m (HAck r :: ops)    -> PWaitS m r ops -> PRun m ops
+                          Ping                 PRun m (HPing r :: ops)   -> PWaitS m r ops -> PRun m ops
             mutex.Lock; reading.Store(true); mutex.Unlock     PRun m [] -> PCheck
             [repaired code only]  select { case <-loopDone: return; default: }   PCheck -> PExit | PSelect
          case <-cc.Done(): return                -> PExit   alternative AltConn
@@ -37,6 +40,35 @@
    this model; the correspondence cases [Burst] of Reader/Run.v (real tcp / udp connections under bursts larger
    than the queue) tie the fact to the code.
 
+   Signals (acknowledgements and pongs).  Some messages are not (only) handed to the queue: the socket reader itself
+   runs the handler that a blocked caller registered for them, before it does anything else with the message:
+     udp  Conn.Process -> handleSpecialMessages -> midHandlerContainer.LoadAndDelete(mid) -> handler:
+          the ACK (piggybacked or empty) of a confirmable request releases waitForAcknowledge, the ACK / RST that
+          answers a ping runs receivedPong; the message then goes on into the queue like any other;
+     tcp  pushToReceivedMessageQueue -> handleSignals: a 7.03 Pong runs the token handler of the pending ping
+          (receivedPong) on the socket reader and is NOT queued.
+   [sigs c] lists them as (id, q): the socket reader meets signal id when q messages are still to be pushed (for udp
+   the head of these q messages is the signal message itself, for tcp the pong stands between two queued messages).
+   The reader's action [ASig id] is enabled when it has reached that position and is not parked on the full queue; it
+   may not push the next message before the signals at its position are handled ([sigs_clear]).
+   Handler operations that wait for a signal: [HAck r] = udp waitForAcknowledge of a confirmable nested request
+   (TryToReplaceLoop, then wait), [HPing r] = Client.Ping (AsyncPing, then wait for receivedPong).  AsyncPing calls
+   TryToReplaceLoop in the repaired code ([pingfix c = true]); before the repair it did not, so a ping issued by a
+   handler left the queue without a consumer ([Proofs.ping_stalls_refuted]).
+
+   The per-message-ID lock of udp handleReq (msgIDMutex).  ProcessReceivedMessage -> handleReq takes the lock of the
+   message's ID for the whole handling of the message (response-cache lookup, handler, reply), so that a duplicate of
+   a request waits for the first copy and is then answered from the cache.  [wire c] gives (type, message ID) of the
+   messages that take part (absent: the message never meets another one with its ID, or the transport has no such
+   lock: tcp); [key_of] is the lock a message takes.  In the repaired code only CON and NON messages take it
+   ([ackfix c = true]; an ACK or RST carries a message ID of OUR numbering, which says nothing about the peer's IDs;
+   before the repair every message took it, so the piggybacked response to a nested request whose ID happened to
+   equal the ID of the request being handled waited for that very handler: [Proofs.ack_collision_refuted]), and a
+   loop that finds the lock taken asks for a replacement loop before it blocks ([lockfix c = true]; before the repair
+   it just blocked, so a retransmitted copy of a request whose handler waits in a nested request took the only consumer
+   of the queue away: [Proofs.dup_stalls_refuted]).  pc [PLock m]: blocked in msgIDMutex.Lock; a response counts as
+   [delivered] to the waiting nested request once its handling has got past the lock.
+
    [fixed c = false] is the code before the repair of F14: PCheck always goes
    back to PSelect.  Go's select picks any ready alternative: the schedule
    carries the choice ([alt]) and [step] only checks that it is ready. *)
@@ -47,7 +79,11 @@ Open Scope Z_scope.
 (* handler programs: what the application handler of a message does before it returns *)
 Inductive hop :=
 | HReplace            (* a call that reaches TryToReplaceLoop and does not block (e.g. Do with a cancelled context) *)
-| HNested (r : Z).    (* NestedDo: TryToReplaceLoop, then block until message r (the response) has been dispatched *)
+| HNested (r : Z)     (* NestedDo: TryToReplaceLoop, then block until message r (the response) has been dispatched *)
+| HAck (r : Z)        (* udp waitForAcknowledge: TryToReplaceLoop, then block until the socket reader has run the
+                         message-ID handler of signal r (the acknowledgement of the confirmable request) *)
+| HPing (r : Z).      (* Client.Ping: AsyncPing (TryToReplaceLoop iff [pingfix]), then block until the socket reader
+                         has run the pong handler of signal r *)
 Definition prog := list hop.
 
 Inductive pc :=
@@ -56,6 +92,8 @@ Inductive pc :=
 | PBusy (m : Z)
 | PRun (m : Z) (ops : prog)
 | PWait (m r : Z) (ops : prog)
+| PWaitS (m r : Z) (ops : prog)     (* the handler of m waits for signal r *)
+| PLock (m : Z)                     (* dispatched, blocked in msgIDMutex.Lock of handleReq *)
 | PCheck
 | PExit.
 
@@ -64,8 +102,16 @@ Record loop := mkLoop { l_done : bool; l_reading : bool; l_pc : pc }.
 Record cfg := mkCfg {
   cap : nat;                     (* ReceivedMessageQueueSize *)
   fixed : bool;                  (* true: loop tests loopDone first after a dispatch (repaired code) *)
-  progs : list (Z * prog)        (* handler program per message id; absent = returns at once *)
+  pingfix : bool;                (* true: AsyncPing calls TryToReplaceLoop (repaired code) *)
+  lockfix : bool;                (* true: handleReq calls TryToReplaceLoop before it blocks on a taken message-ID lock (repaired code) *)
+  ackfix : bool;                 (* true: only CON / NON messages take the message-ID lock (repaired code) *)
+  progs : list (Z * prog);       (* handler program per message id; absent = returns at once *)
+  sigs : list (Z * nat);         (* signals (id, q): met by the socket reader when q messages are still to be pushed *)
+  wire : list (Z * (Z * Z))      (* message -> (type 0 CON / 1 NON / 2 ACK / 3 RST, message ID) *)
 }.
+
+(* the blocking points that are not nested requests ask for a replacement loop too (repaired code) *)
+Definition repaired_waits (c : cfg) : bool := pingfix c && lockfix c.
 
 Fixpoint lookup (m : Z) (l : list (Z * prog)) : prog :=
   match l with [] => [] | (k, p) :: r => if k =? m then p else lookup m r end.
@@ -79,11 +125,12 @@ Record st := mkSt {
   cur : nat;             (* r.private.{loopDone,readingMessages} belong to this loop *)
   loops : list loop;
   commits : list Z;      (* ghost: order of the MarkBusy actions *)
-  log : list (Z * nat)   (* dispatch log: (message, loop) in order of the ProcessReceivedMessage calls *)
+  log : list (Z * nat);  (* dispatch log: (message, loop) in order of the ProcessReceivedMessage calls *)
+  sigd : list Z          (* signals whose handler the socket reader has run, in that order *)
 }.
 
 Definition init (msgs : list Z) (k : nat) : st :=
-  mkSt [] msgs k false 0 [mkLoop false true PSelect] [] [].
+  mkSt [] msgs k false 0 [mkLoop false true PSelect] [] [] [].
 
 Fixpoint upd {A} (i : nat) (x : A) (l : list A) : list A :=
   match l, i with
@@ -93,7 +140,7 @@ Fixpoint upd {A} (i : nat) (x : A) (l : list A) : list A :=
   end.
 
 Definition with_loops (s : st) (ls : list loop) : st :=
-  mkSt (queue s) (prod s) (ext s) (closed s) (cur s) ls (commits s) (log s).
+  mkSt (queue s) (prod s) (ext s) (closed s) (cur s) ls (commits s) (log s) (sigd s).
 
 Definition set_pc (s : st) (l : nat) (lp : loop) (p : pc) : st :=
   with_loops s (upd l (mkLoop (l_done lp) (l_reading lp) p) (loops s)).
@@ -106,10 +153,43 @@ Definition try_replace (s : st) : st :=
       if l_reading c then s
       else mkSt (queue s) (prod s) (ext s) (closed s) (length (loops s))
                 (upd (cur s) (mkLoop true (l_reading c) (l_pc c)) (loops s) ++ [mkLoop false true PSelect])
-                (commits s) (log s)
+                (commits s) (log s) (sigd s)
   end.
 
-Definition delivered (r : Z) (s : st) : bool := existsb (fun e => fst e =? r) (log s).
+(* the message-ID lock *)
+Fixpoint lookup_wire (m : Z) (l : list (Z * (Z * Z))) : option (Z * Z) :=
+  match l with [] => None | (k, v) :: r => if k =? m then Some v else lookup_wire m r end.
+Definition takes_lock (c : cfg) (typ : Z) : bool := negb (ackfix c) || (typ =? 0) || (typ =? 1).
+Definition key_of (c : cfg) (m : Z) : option Z :=
+  match lookup_wire m (wire c) with
+  | Some (typ, mid) => if takes_lock c typ then Some mid else None
+  | None => None
+  end.
+Definition key_eqb (a b : option Z) : bool :=
+  match a, b with Some x, Some y => x =? y | _, _ => false end.
+(* the message whose handling a loop is in the middle of (between taking and releasing the lock) *)
+Definition handling (lp : loop) : option Z :=
+  match l_pc lp with PRun m _ | PWait m _ _ | PWaitS m _ _ => Some m | _ => None end.
+Definition lock_held (c : cfg) (s : st) (m : Z) : bool :=
+  existsb (fun lp => match handling lp with Some m' => key_eqb (key_of c m') (key_of c m) | None => false end) (loops s).
+Definition locked_out (r : Z) (s : st) : bool :=
+  existsb (fun lp => match l_pc lp with PLock m => m =? r | _ => false end) (loops s).
+
+(* the response r has reached the nested request that waits for it: dispatched and past the message-ID lock *)
+Definition delivered (r : Z) (s : st) : bool := existsb (fun e => fst e =? r) (log s) && negb (locked_out r s).
+
+(* signals *)
+Definition memz (r : Z) (l : list Z) : bool := existsb (Z.eqb r) l.
+Definition signalled (r : Z) (s : st) : bool := memz r (sigd s).
+(* the socket reader is not parked on the full queue: its last send has completed *)
+Definition reader_free (c : cfg) (s : st) : bool := (length (queue s) <=? cap c)%nat.
+(* signal e stands at the socket reader's position *)
+Definition sig_here (s : st) (e : Z * nat) : bool := Nat.eqb (snd e) (length (prod s)).
+(* every signal at the socket reader's position has been handled: it may go on to the next message *)
+Definition sigs_clear (c : cfg) (s : st) : bool :=
+  forallb (fun e => negb (sig_here s e) || signalled (fst e) s) (sigs c).
+Definition sig_enabled (c : cfg) (s : st) (r : Z) : bool :=
+  reader_free c s && negb (signalled r s) && existsb (fun e => (fst e =? r) && sig_here s e) (sigs c).
 
 Inductive alt := AltDone | AltQueue | AltConn.
 
@@ -117,6 +197,7 @@ Inductive act :=
 | APush                       (* producer: queue <- next message (completes at once or blocks as pending send) *)
 | AClose
 | AExt                        (* TryToReplaceLoop from a goroutine that is not a handler *)
+| ASig (r : Z)                (* socket reader: run the handler registered for signal r (acknowledgement / pong) *)
 | ALoop (l : nat) (a : alt).  (* loop l performs its next action; [a] matters at PSelect only *)
 
 Definition step_loop (c : cfg) (s : st) (l : nat) (a : alt) : option st :=
@@ -130,20 +211,29 @@ Definition step_loop (c : cfg) (s : st) (l : nat) (a : alt) : option st :=
           | AltQueue =>
               match queue s with
               | [] => None
-              | m :: q => Some (set_pc (mkSt q (prod s) (ext s) (closed s) (cur s) (loops s) (commits s) (log s)) l lp (PDeq m))
+              | m :: q => Some (set_pc (mkSt q (prod s) (ext s) (closed s) (cur s) (loops s) (commits s) (log s) (sigd s)) l lp (PDeq m))
               end
           | AltConn => if closed s then Some (set_pc s l lp PExit) else None
           end
       | PDeq m =>
           Some (mkSt (queue s) (prod s) (ext s) (closed s) (cur s)
-                     (upd l (mkLoop (l_done lp) false (PBusy m)) (loops s)) (commits s ++ [m]) (log s))
+                     (upd l (mkLoop (l_done lp) false (PBusy m)) (loops s)) (commits s ++ [m]) (log s) (sigd s))
       | PBusy m =>
-          Some (mkSt (queue s) (prod s) (ext s) (closed s) (cur s)
-                     (upd l (mkLoop (l_done lp) (l_reading lp) (PRun m (hp c m))) (loops s)) (commits s) (log s ++ [(m, l)]))
+          if lock_held c s m
+          then let s' := mkSt (queue s) (prod s) (ext s) (closed s) (cur s)
+                              (upd l (mkLoop (l_done lp) (l_reading lp) (PLock m)) (loops s)) (commits s) (log s ++ [(m, l)]) (sigd s) in
+               Some (if lockfix c then try_replace s' else s')
+          else Some (mkSt (queue s) (prod s) (ext s) (closed s) (cur s)
+                          (upd l (mkLoop (l_done lp) (l_reading lp) (PRun m (hp c m))) (loops s)) (commits s) (log s ++ [(m, l)]) (sigd s))
+      | PLock m => if lock_held c s m then None else Some (set_pc s l lp (PRun m (hp c m)))
       | PRun m [] => Some (with_loops s (upd l (mkLoop (l_done lp) true PCheck) (loops s)))
       | PRun m (HReplace :: ops) => Some (try_replace (set_pc s l lp (PRun m ops)))
       | PRun m (HNested r :: ops) => Some (try_replace (set_pc s l lp (PWait m r ops)))
+      | PRun m (HAck r :: ops) => Some (try_replace (set_pc s l lp (PWaitS m r ops)))
+      | PRun m (HPing r :: ops) =>
+          Some (if pingfix c then try_replace (set_pc s l lp (PWaitS m r ops)) else set_pc s l lp (PWaitS m r ops))
       | PWait m r ops => if delivered r s then Some (set_pc s l lp (PRun m ops)) else None
+      | PWaitS m r ops => if signalled r s then Some (set_pc s l lp (PRun m ops)) else None
       | PCheck => Some (set_pc s l lp (if fixed c && l_done lp then PExit else PSelect))
       | PExit => None
       end
@@ -154,15 +244,18 @@ Definition step (c : cfg) (s : st) (a : act) : option st :=
   | APush =>
       match prod s with
       | [] => None
-      | m :: r => if (length (queue s) <=? cap c)%nat
-                  then Some (mkSt (queue s ++ [m]) r (ext s) (closed s) (cur s) (loops s) (commits s) (log s))
+      | m :: r => if reader_free c s && sigs_clear c s
+                  then Some (mkSt (queue s ++ [m]) r (ext s) (closed s) (cur s) (loops s) (commits s) (log s) (sigd s))
                   else None
       end
-  | AClose => if closed s then None else Some (mkSt (queue s) (prod s) (ext s) true (cur s) (loops s) (commits s) (log s))
+  | AClose => if closed s then None else Some (mkSt (queue s) (prod s) (ext s) true (cur s) (loops s) (commits s) (log s) (sigd s))
   | AExt => match ext s with
             | O => None
-            | S k => Some (try_replace (mkSt (queue s) (prod s) k (closed s) (cur s) (loops s) (commits s) (log s)))
+            | S k => Some (try_replace (mkSt (queue s) (prod s) k (closed s) (cur s) (loops s) (commits s) (log s) (sigd s)))
             end
+  | ASig r => if sig_enabled c s r
+              then Some (mkSt (queue s) (prod s) (ext s) (closed s) (cur s) (loops s) (commits s) (log s) (sigd s ++ [r]))
+              else None
   | ALoop l a => step_loop c s l a
   end.
 
@@ -183,10 +276,19 @@ Definition loop_enabled (c : cfg) (s : st) (l : nat) : bool :=
 Definition quiescent (c : cfg) (s : st) : bool :=
   match step c s APush with Some _ => false | None =>
   match step c s AExt with Some _ => false | None =>
+  negb (existsb (fun e => sig_enabled c s (fst e)) (sigs c)) &&
   negb (existsb (loop_enabled c s) (seq 0 (length (loops s)))) end end.
 
 (* a deterministic scheduler used for the connection-level cases: run the loop with the smallest index that can move;
-   when none can, let external callers, then the producer, move; stop when nothing can. *)
+   when none can, let external callers, then the producer (signal handlers first), move; stop when nothing can. *)
+Fixpoint first_sig (c : cfg) (s : st) (l : list (Z * nat)) : option (act * st) :=
+  match l with
+  | [] => None
+  | e :: r => match step c s (ASig (fst e)) with
+              | Some s' => Some (ASig (fst e), s')
+              | None => first_sig c s r
+              end
+  end.
 Fixpoint first_enabled (c : cfg) (s : st) (ls : list nat) : option st :=
   match ls with
   | [] => None
@@ -207,9 +309,12 @@ Fixpoint run_canon (fuel : nat) (c : cfg) (s : st) : st :=
       | Some s' => run_canon f c s'
       | None => match step c s AExt with
                 | Some s' => run_canon f c s'
-                | None => match step c s APush with
-                          | Some s' => run_canon f c s'
-                          | None => s
+                | None => match first_sig c s (sigs c) with
+                          | Some (_, s') => run_canon f c s'
+                          | None => match step c s APush with
+                                    | Some s' => run_canon f c s'
+                                    | None => s
+                                    end
                           end
                 end
       end
@@ -236,9 +341,12 @@ Fixpoint canon_sched (fuel : nat) (c : cfg) (s : st) : list act :=
       | Some (a, s') => a :: canon_sched f c s'
       | None => match step c s AExt with
                 | Some s' => AExt :: canon_sched f c s'
-                | None => match step c s APush with
-                          | Some s' => APush :: canon_sched f c s'
-                          | None => []
+                | None => match first_sig c s (sigs c) with
+                          | Some (a, s') => a :: canon_sched f c s'
+                          | None => match step c s APush with
+                                    | Some s' => APush :: canon_sched f c s'
+                                    | None => []
+                                    end
                           end
                 end
       end
